@@ -293,7 +293,9 @@ func cmdCheck(repo, verif, prop, tier string, timeoutMs int, verbose bool) int {
 				continue
 			}
 			if o.Cover {
-				if o.Status == "vacuous" {
+				// a dead return (e.g. an error path a callee's contract excludes) is not vacuity; an unsatisfiable
+				// precondition or a function none of whose returns is reachable is
+				if o.Status == "vacuous" && (o.Key == "pre" || allRetsVacuous(fr)) {
 					emitViolation(o.Name, fmt.Sprintf("vacuity guard failed: %s is unreachable under the contract's assumptions (%s)\n", o.Name, o.Pos), true)
 				}
 				continue
@@ -365,6 +367,19 @@ func cmdCheck(repo, verif, prop, tier string, timeoutMs int, verbose bool) int {
 		return 1
 	}
 	return 0
+}
+
+func allRetsVacuous(fr *FuncResult) bool {
+	n := 0
+	for _, o := range fr.Obls {
+		if o.Cover && strings.HasPrefix(o.Key, "ret") {
+			n++
+			if o.Status != "vacuous" {
+				return false
+			}
+		}
+	}
+	return n > 0
 }
 
 type replayResult struct {
